@@ -906,7 +906,14 @@ def get_param_as_list(v):
 
 
 # ---------------------------------------------------------------------------
-# parse_query_string: the loop body on 1..3 symbolic fields against a reference fold
+# parse_query_string: the real loop body on 1..3 symbolic fields against a reference fold
+#
+# A query string is built from atoms:  qs = f1 & ... & fn,  f = name | name '=' value,
+# value = e1 , ... , em  (the comma structure only matters when csv is on).  Atoms are
+# arbitrary symbolic strings free of the separators above them.  str.split / str.partition /
+# `in` on these joined strings are answered from the construction (TRUSTED: they are the
+# inverses of joining separator-free pieces); everything else the parser does -- blank
+# handling, decoding, comma handling, accumulation into the dict -- runs from its source.
 
 DEC = z3.Function('falcon.uri.decode', _S, _S)
 PQS = URI + ':parse_query_string'
@@ -916,32 +923,83 @@ def _has(t, sub):
     return z3.Contains(t, z3.StringVal(sub))
 
 
-def decode_ref(ctx, s):
+def contains(s, sub):
+    if hasattr(s, '__pyvc_contains__'):
+        return s.__pyvc_contains__(sub)
+    return s.contains(sub) if isinstance(s, SStr) else (sub in s)
+
+
+def decode_ref(s):
     """falcon.util.uri.decode (contract of C10): a total function str -> str, the identity on strings without '+' and '%'."""
     if not sym(s):
         import importlib
 
         return importlib.import_module(URI).decode(s)
-    r = DEC(s.t)
-    # a comma in the decoded text comes from a literal comma or from the escape %2C (fact about percent-decoding; only sharpens counter-models)
-    ctx.assume(mk_bool(z3.Implies(_has(r, ','), z3.Or(_has(s.t, ','), _has(s.t, '%2C'), _has(s.t, '%2c')))))
-    return mk_str(z3.If(z3.Or(_has(s.t, '+'), _has(s.t, '%')), r, s.t), 'str')
+    return mk_str(z3.If(z3.Or(_has(s.t, '+'), _has(s.t, '%')), DEC(s.t), s.t), 'str')
+
+
+def _decode_stub(I, s, unquote_plus=True):
+    if unquote_plus is not True:
+        raise Unreached('decode(unquote_plus=False) inside the query parser')
+    return decode_ref(s)
+
+
+@stubclass
+class Joined:
+    """sep.join(pieces) for separator-free pieces, as the subject sees it: a str with split / partition / `in` / len."""
+
+    def __init__(self, text):
+        self.text = text  # the SStr (or str) itself, for operations the construction does not answer
+
+
+@stubclass
+class Field:
+    """name, or name '=' value with an '='-free name: partition('=') is known from the construction."""
+
+    def __init__(self, name, has_eq, value):
+        self.name, self.has_eq, self.value = name, has_eq, value
+
+    def partition(self, sep):
+        if sep != '=':
+            raise Unreached('Field.partition(%r)' % (sep,))
+        return (self.name, '=', self.value) if self.has_eq else (self.name, '', '')
+
+    def atoms(self):
+        return [self.name] + ([self.value] if self.has_eq else [])
+
+
+@stubclass
+class QueryString:
+    """'&'.join(fields) for '&'-free fields."""
+
+    def __init__(self, fields):
+        self.fields = fields
+
+    def split(self, sep=None, maxsplit=-1):
+        if sep != '&' or maxsplit != -1:
+            raise Unreached('QueryString.split(%r, %r)' % (sep, maxsplit))
+        return list(self.fields)
+
+    def __pyvc_contains__(self, ch):
+        # a character other than '&' and '=' occurs in the query string iff it occurs in some name or value
+        if ch not in ('+', '%'):
+            raise Unreached('membership of %r in the query string' % (ch,))
+        return Or(*[contains(a, ch) for f in self.fields for a in f.atoms()])
 
 
 def _split_model(ctx, s, sep, maxsplit):
-    """str.split(sep) (one-character separator): the sep-free pieces whose sep-join is the string.
+    """str.split(sep): a value built as sep.join(pieces) of sep-free pieces splits into those pieces.
 
-    The query string itself is '&'.join(fields) by construction, so its split is the field list.  Any other
-    string is split into at most `max_pieces` pieces; strings with more separators are NOT explored (bound, see NOT_DECIDED).
+    Strings of unknown structure (only reached by modified code) are split into at most three pieces; more separators are not explored.
     """
-    g = ctx.ghost
     if maxsplit != -1 or not isinstance(sep, str) or len(sep) != 1:
         raise Unreached('split(%r, %r) on a symbolic string' % (sep, maxsplit))
-    if g.get('qs') is s and sep == '&':
-        return list(g['fields'])
+    known = ctx.ghost.get('joined', {}).get(id(s))
+    if known is not None and known[0] == sep:
+        return list(known[1])
     sp = z3.StringVal(sep)
     pieces, rest = [], s.t
-    for _ in range(g.get('max_pieces', 2) - 1):
+    for _ in range(2):
         if not ctx.branch(z3.Contains(rest, sp), 'split%s:another-piece' % sep):
             break
         i = z3.IndexOf(rest, sp, 0)
@@ -958,14 +1016,37 @@ def _parser_setup(reg, ex):
     reg.stubs[URI + ':decode'] = _decode_stub
 
 
-def _decode_stub(I, s, unquote_plus=True):
-    if unquote_plus is not True:
-        raise Unreached('decode(unquote_plus=False) inside the query parser')
-    return decode_ref(I.ctx, s)
+def mk_value(v, i, csv, max_pieces):
+    """The value of field i: one atom (csv off), or 1..max_pieces comma-free atoms joined by ','."""
+    if not csv:
+        val = v.str('value%d' % i)
+        v.assume(Not(contains(val, '&')))
+        return val
+    m = v.choose(max_pieces, 'elements-of-value%d' % i) + 1
+    pieces = [v.str('value%d_element%d' % (i, j)) for j in range(m)]
+    for e in pieces:
+        v.assume(And(Not(contains(e, '&')), Not(contains(e, ','))))
+    val = pieces[0]
+    for e in pieces[1:]:
+        val = val + ',' + e
+    if not v.concrete and m > 1:
+        v.ctx.ghost.setdefault('joined', {})[id(val)] = (',', pieces)
+        v.ctx.ghost.setdefault('keep', []).append(val)
+    return val
 
 
-def contains(s, sub):
-    return s.contains(sub) if isinstance(s, SStr) else (sub in s)
+def mk_query_string(v, n, csv, max_pieces):
+    fields, texts = [], []
+    for i in range(n):
+        name = v.str('name%d' % i)
+        v.assume(And(Not(contains(name, '&')), Not(contains(name, '='))))
+        has_eq = bool(v.choose(2, 'field%d-has-equals-sign' % i))
+        value = mk_value(v, i, csv, max_pieces) if has_eq else ''
+        fields.append(Field(name, has_eq, value))
+        texts.append(name + '=' + value if has_eq else name)
+    if v.concrete:
+        return '&'.join(texts), texts
+    return QueryString(fields), fields
 
 
 def first_eq_split(field):
@@ -976,7 +1057,6 @@ def first_eq_split(field):
 
 def reference_fold(v, fields, keep_blank, csv):
     """The form-urlencoded reference reading of the statement, as an insertion-ordered association list."""
-    ctx = v.ctx
     acc = []
     for field in fields:
         name, value = first_eq_split(field)
@@ -986,15 +1066,15 @@ def reference_fold(v, fields, keep_blank, csv):
                 continue
             if Len(name) == 0:
                 continue
-        key = decode_ref(ctx, name)
+        key = decode_ref(name)
         if csv and contains(value, ','):
             # literal commas only: the split happens before decoding
             pieces = value.split(',')
             if not keep_blank:
                 pieces = [p for p in pieces if Len(p) != 0]
-            new, new_is_list = [decode_ref(ctx, p) for p in pieces], True
+            new, new_is_list = [decode_ref(p) for p in pieces], True
         else:
-            new, new_is_list = decode_ref(ctx, value), False
+            new, new_is_list = decode_ref(value), False
         slot = None
         for e in acc:
             if e[0] == key:
@@ -1026,18 +1106,7 @@ def _parse_query_string(v):
     n = v.choose(3, 'fields') + 1
     keep_blank = bool(v.choose(2, 'keep_blank'))
     csv = bool(v.choose(2, 'csv'))
-    fields = [v.str('field%d' % i) for i in range(n)]
-    for f in fields:
-        v.assume(Not(contains(f, '&')))
-    qs = fields[0]
-    for f in fields[1:]:
-        qs = qs + '&' + f
-    if not v.concrete:
-        v.ctx.ghost.update(qs=qs, fields=fields, max_pieces=3 if n == 1 else 2)
-    for ch in '+%':
-        # '+' / '%' occur in the query string iff they occur in the name or the value of some field ('&' and '=' are other characters)
-        parts = [p for f in fields for p in first_eq_split(f)]
-        v.check('lemma-escape-characters-of-the-query-string-are-those-of-its-names-and-values', Iff(contains(qs, ch), Or(*[contains(p, ch) for p in parts])))
+    qs, fields = mk_query_string(v, n, csv, 3 if n == 1 else 2)
     if v.choose(2, 'options-by-keyword'):
         out = v.call(qs, keep_blank=keep_blank, csv=csv)
     else:
@@ -1057,11 +1126,24 @@ def _parse_query_string(v):
         v.cover('all-names-distinct')
 
 
-for _n in range(3):
-    for _k in range(2):
-        for _c in range(2):
-            harness(PROP, PQS, name='parse_query_string[fields=%d,keep_blank=%d,csv=%d]' % (_n + 1, _k, _c), setup=_parser_setup,
-                    fix={'fields': _n, 'keep_blank': _k, 'csv': _c}, max_paths=200000)(_parse_query_string)
+def _variants():
+    for n in (1, 2, 3):
+        for k in (0, 1):
+            for c in (0, 1):
+                fx = {'fields': n - 1, 'keep_blank': k, 'csv': c}
+                if n > 1:
+                    fx['options-by-keyword'] = 1  # the calling convention is explored with one field
+                if n == 3 and c == 1:
+                    # the largest case is split by the shape of the first two fields (run time per harness)
+                    for e0 in (0, 1):
+                        for e1 in (0, 1):
+                            yield 'fields=3,keep_blank=%d,csv=1,eq0=%d,eq1=%d' % (k, e0, e1), dict(fx, **{'field0-has-equals-sign': e0, 'field1-has-equals-sign': e1})
+                else:
+                    yield 'fields=%d,keep_blank=%d,csv=%d' % (n, k, c), fx
+
+
+for _name, _fx in _variants():
+    harness(PROP, PQS, name='parse_query_string[%s]' % _name, setup=_parser_setup, fix=_fx, max_paths=200000)(_parse_query_string)
 
 
 ASSUMPTIONS = []
